@@ -161,3 +161,63 @@ func placeholderHasSequenceZero(c *core.Ctx) {
 	}
 	c.Check(n >= 1, rule, "placeholder constructors found", 0, "no function building an lsdbEntry from a CSNP's LSPEntry found")
 }
+
+// psnpListsEverySSNEntry: a PSNP on a circuit carries an entry for EVERY database entry whose SSN flag is set for that
+// circuit — including the sequence-number-0 placeholders created for LSPs a neighbor's CSNP described and we do not
+// hold: listing them is how the missing LSP is requested.  Rule: in the code that collects the entries for a PSNP
+// (reachable from _getLSPWithSSNSet) the only condition an entry is selected by is its SSN flag.
+func psnpListsEverySSNEntry(c *core.Ctx) {
+	const rule = "psnp-lists-every-ssn-entry"
+	p := c.P
+	f := c.MustFunc(isisSrv + ".(*lsdb)._getLSPWithSSNSet")
+	getSSN := p.Func(isisSrv + ".(*lsdbEntry).getSSN")
+	lspsF := p.Field(isisSrv, "lsdb", "lsps")
+	if f == nil || getSSN == nil || lspsF == nil {
+		return
+	}
+	n := 0
+	for _, g := range p.ReachableFns(f) {
+		if g.Decl.Body == nil || g.Pkg != f.Pkg {
+			continue
+		}
+		ast.Inspect(g.Decl.Body, func(nd ast.Node) bool {
+			rs, ok := nd.(*ast.RangeStmt)
+			if !ok || core.FieldOf(g.Pkg, rs.X) != lspsF {
+				return true
+			}
+			n++
+			c.Analysed(g)
+			ast.Inspect(rs.Body, func(m ast.Node) bool {
+				as, isAs := m.(*ast.AssignStmt)
+				if !isAs || len(as.Rhs) != 1 {
+					return true
+				}
+				call, isCall := core.Unparen(as.Rhs[0]).(*ast.CallExpr)
+				if !isCall {
+					return true
+				}
+				if id, isId := call.Fun.(*ast.Ident); !isId || id.Name != "append" {
+					return true
+				}
+				bad := ""
+				for _, ft := range core.CtlFactsAt(g, as) {
+					if ft.Expr == nil || ft.Expr.Pos() < rs.Body.Pos() || ft.Expr.End() > rs.Body.End() {
+						continue
+					}
+					onlySSN := len(core.Calls(g.Pkg, ft.Expr, func(o *types.Func) bool { return o == getSSN.Obj })) > 0
+					if cl := core.CallOf(g, ft.Expr); cl != nil && core.Callee(g.Pkg, cl) == getSSN.Obj {
+						onlySSN = true
+					}
+					if !onlySSN {
+						bad = core.ExprString(ft.Expr)
+					}
+				}
+				c.Check(bad == "", rule, g.Name()+" selects PSNP entries by the SSN flag alone", as.Pos(),
+					"an entry with its SSN flag set is left out of the PSNP under `"+bad+"`: the flag is cleared after sending all the same, so the acknowledgement or — for a placeholder — the request for the missing LSP never goes out")
+				return true
+			})
+			return true
+		})
+	}
+	c.Check(n >= 1, rule, "PSNP entry collection loop found", f.Decl.Pos(), "no loop over the LSDB reachable from _getLSPWithSSNSet")
+}
